@@ -57,6 +57,9 @@ def _strategy(dll):
     return st.fixed_dictionaries({
         "dll": st.just(dll), "ops": ops,
         "reply_lat": st.sampled_from([[0.001, 0.003], [0.001, 0.003], [0.02], [0.08]]),
+        "sas": st.sampled_from([[0x30, 0x90, 0x91, 0x92], [0x30, 0x90, 0x91, 0x92], [0x00, 0x90, 0x91, 0x92], [0x30, 0x00, 0x01, 0xFD],
+                                [0xFD, 0x7F, 0x80, 0x00], [0x80, 0xF7, 0xF8, 0x01]]),
+        "tx_time": st.sampled_from([0.0, 0.0, 0.0001, 0.0005]),
         "max_cmdt": st.sampled_from([1, 2, 3, 255]),
         "grants": st.lists(st.sampled_from([1, 2, 3, 255]), min_size=1, max_size=3),
         "lat": st.fixed_dictionaries({"S": st.lists(st.sampled_from([0.0002, 0.0005, 0.001, 0.0025]), min_size=1, max_size=2)}),
@@ -102,17 +105,18 @@ class C10:
         def V(kind, msg, site=""):
             viol.append({"kind": kind, "msg": msg, "bucket": "C10|%s|%s|%s" % (kind, "22" if fd else "21", site)})
 
+        SA_S, *PEERS = p.get("sas", [0x30, 0x90, 0x91, 0x92])
         lat = {"S": p["lat"]["S"], "P0": [0.0005], "P1": [0.001], "P2": [0.0002]}
         w = W.World(latency=lat, wake_eps=[0.0, 1e-5], dispatch=[0.0, 1e-5])
         failed_fates = 0
         sent = []      # (op index, peer or None, kind, payload, fate, result)
         try:
-            s = w.stack("S", dll=p["dll"], max_cmdt=p["max_cmdt"])
+            s = w.stack("S", dll=p["dll"], max_cmdt=p["max_cmdt"], tx_time=p.get("tx_time", 0.0))
             s.add_ca("s", 0x100, SA_S)
             s.listen_ca("s")
             peers = [RefPeer(w.bus, "P%d" % i, a, fd=fd, grants=p["grants"], reply_lat=p.get("reply_lat", [0.001, 0.003])) for i, a in enumerate(PEERS)]
             seg = 60 if fd else 7
-            rt = 2 * 0.0025 + max(p.get("reply_lat", [0.003])) + 0.002
+            rt = 2 * 0.0025 + max(p.get("reply_lat", [0.003])) + 0.002 + 2 * p.get("tx_time", 0.0)
             # capacity model: list of (free_at) per resource
             pair_free = collections.defaultdict(float)    # 21: key = DA
             slots = {"rts": [], "bam": []}                 # 22: lists of free_at of sessions in flight
